@@ -401,6 +401,9 @@ def c10_rewritten(rep):
 # C19
 
 
+_C19_FILES = {}
+
+
 class RecSys:
     def __init__(self, cfg):
         self.cfg = cfg
@@ -414,7 +417,14 @@ class RecSys:
         self.B, self.H = B, H
         self.many = None
         hop_dur = None if H == B else H / SR
-        self.real = build_reader(kind, data, sw, ch, None, B / SR, hop_dur, mr,
+        files = None
+        if kind in ("raw", "wav"):
+            # a lazily read file (large_file=True) under the recorder
+            tag = "c19_%d_%d_%d_%d" % (os.getpid(), n, sw, ch)
+            if tag not in _C19_FILES:
+                _C19_FILES[tag] = write_files(data, sw, ch, tag)
+            files = _C19_FILES[tag]
+        self.real = build_reader(kind, data, sw, ch, files, B / SR, hop_dur, mr,
                                  record=(how == "record"), cls="Recorder" if how == "Recorder" else None)
         self.real.open()
         self.phase = "live"
@@ -841,6 +851,12 @@ def run(prop, tier):
             for mr in (None, 2.5 / SR):
                 tasks.append(((n, 2, 1, B, H, mr, "Recorder", "buffer_pos2"), 2, 5 if quick else 6))
                 tasks.append(((n, 2, 1, B, H, mr, "record", "user_adapter"), 2, 5 if quick else 6))
+    # lazily read raw / wav files under the recorder
+    for n in (3, 5):
+        for B, H in ((1, 1), (2, 1)):
+            for mr in (None, 2.5 / SR):
+                tasks.append(((n, 2, 1, B, H, mr, "record", "raw"), 2, 5 if quick else 6))
+                tasks.append(((n, 1, 2, B, H, mr, "Recorder", "wav"), 2, 5 if quick else 6))
     # more than 1024 / 2048 reads before the rewind
     for (n, B, H, mr, k) in ((1100, 1, 1, None, 1030), (2300, 1, 1, None, 2060), (2200, 2, 1, 2100 / SR, 1040), (3300, 3, 3, None, 1030)):
         tasks.append(((n, 1, 1, B, H, mr, "Recorder", "bytes"), 0, 3, k))
